@@ -1,13 +1,1159 @@
-//! C20 — (stub; to be implemented, see DESIGN.md section 5 and HARNESS.md)
+//! C20 — every cargo feature of derive_more works on its own and in combination, with and without `std`.
+//!
+//! Engine E4 (configuration matrix): no generated derive programs; `cargo` is run on the *mirror* of the tree
+//! under test (`ctx.mirror`, never `/repo` itself) with generated feature sets, each worker slot with a private
+//! `CARGO_TARGET_DIR` below `ctx.work_dir`.
+//!
+//! Oracle per feature set F (DESIGN.md section 5, C20):
+//!  1. `cargo check -p derive_more-impl --no-default-features --features F'` and
+//!     `cargo check -p derive_more --no-default-features --features F` finish without *errors* (warnings are not
+//!     judged: the statement says "builds without errors", and the installed rustc is newer than the pinned one).
+//!  2. a generated probe crate depending on the mirror with exactly the features F contains one line per exported
+//!     item (derive macros at the crate root, in `derive::` and in `with_trait::`, the std traits of `with_trait::`,
+//!     the helper error types, the `__private` helpers); the set of lines rustc cannot resolve must be exactly the
+//!     items of the features that are *not* enabled (table `probes()`, grounded in README / impl/doc / src/lib.rs).
+//!  3. `cargo test -p derive_more --no-default-features --features F --lib --test <t>...` passes for every test
+//!     program of the repository whose `required-features` are satisfied by F (the selection cargo itself makes for
+//!     `--tests`; `compile_fail` (trybuild) is excluded: it cannot run offline and fails in the baseline).
+//!
+//! Replay case: `{"features": [...], "std": bool}`.
 use super::core::*;
-use serde_json::Value;
+use super::dm::DERIVES;
+use proptest::prelude::*;
+use proptest::strategy::ValueTree;
+use proptest::test_runner::TestRunner;
+use serde_json::{json, Value};
+use std::collections::{BTreeMap, BTreeSet};
+use std::io::Read;
+use std::path::{Path, PathBuf};
+use std::process::{Command, Stdio};
+use std::sync::atomic::{AtomicUsize, Ordering};
+use std::sync::Mutex;
+use std::time::{Duration, Instant};
 
-pub fn run(_ctx: &Ctx) -> Report {
-    let mut rep = Report::new("stub");
-    rep.infra_errors.push("C20 not implemented yet".into());
+const RULE: &str = "a configuration counts as non-trivial when at most two derive features are enabled or `std` is off \
+(`full` + `std` is the one configuration the pinned suite already runs)";
+
+/// Test targets that are never selected (see module doc).
+const EXCLUDED_TESTS: &[&str] = &["compile_fail"];
+
+// ------------------------------------------------------------------------------------------------------------
+// feature sets
+// ------------------------------------------------------------------------------------------------------------
+
+#[derive(Clone, Debug, PartialEq, Eq, PartialOrd, Ord, Hash)]
+pub struct FeatSet {
+    /// facade features other than `std` (derive features or `full`), sorted
+    pub feats: Vec<String>,
+    pub std: bool,
+}
+
+impl FeatSet {
+    fn new(mut feats: Vec<String>, std: bool) -> FeatSet {
+        feats.sort();
+        feats.dedup();
+        FeatSet { feats, std }
+    }
+    fn key(&self) -> String {
+        format!("{}{}", self.feats.join("+"), if self.std { " +std" } else { " -std" })
+    }
+    fn to_json(&self) -> Value {
+        json!({"features": self.feats, "std": self.std})
+    }
+    fn from_json(v: &Value) -> Option<FeatSet> {
+        let feats: Vec<String> = v["features"].as_array()?.iter().filter_map(|x| x.as_str().map(|s| s.to_string())).collect();
+        if feats.is_empty() {
+            return None;
+        }
+        Some(FeatSet::new(feats, v["std"].as_bool().unwrap_or(false)))
+    }
+    fn facade_arg(&self) -> String {
+        let mut v = self.feats.clone();
+        if self.std {
+            v.push("std".into());
+        }
+        v.join(",")
+    }
+    fn impl_arg(&self) -> String {
+        self.feats.join(",")
+    }
+}
+
+// ------------------------------------------------------------------------------------------------------------
+// what the tree under test declares (cargo metadata of the mirror)
+// ------------------------------------------------------------------------------------------------------------
+
+struct Tree {
+    /// the facade features that forward to `derive_more-impl/<same name>`
+    derive_features: Vec<String>,
+    facade_graph: BTreeMap<String, Vec<String>>,
+    /// (test target name, required-features)
+    tests: Vec<(String, Vec<String>)>,
+}
+
+impl Tree {
+    /// All facade features enabled by the set (transitively), `std` included when on.
+    fn closure(&self, set: &FeatSet) -> BTreeSet<String> {
+        let mut out = BTreeSet::new();
+        let mut todo: Vec<String> = set.feats.clone();
+        if set.std {
+            todo.push("std".into());
+        }
+        while let Some(f) = todo.pop() {
+            if !out.insert(f.clone()) {
+                continue;
+            }
+            for d in self.facade_graph.get(&f).cloned().unwrap_or_default() {
+                if !d.contains('/') && !d.starts_with("dep:") {
+                    todo.push(d);
+                }
+            }
+        }
+        out
+    }
+    fn enabled_derive_features(&self, set: &FeatSet) -> BTreeSet<String> {
+        let c = self.closure(set);
+        self.derive_features.iter().filter(|f| c.contains(*f)).cloned().collect()
+    }
+    /// The repository's test programs cargo would select for `--tests` under this set, minus the excluded ones.
+    fn eligible_tests(&self, set: &FeatSet) -> Vec<String> {
+        let c = self.closure(set);
+        self.tests
+            .iter()
+            .filter(|(n, req)| !EXCLUDED_TESTS.contains(&n.as_str()) && req.iter().all(|r| c.contains(r)))
+            .map(|(n, _)| n.clone())
+            .collect()
+    }
+}
+
+fn base_cargo(ctx: &Ctx) -> Command {
+    let mut c = Command::new("cargo");
+    c.env("CARGO_NET_OFFLINE", "true");
+    c.env("CARGO_TERM_COLOR", "never");
+    c.env("CARGO_INCREMENTAL", "0");
+    // debuginfo changes neither verdicts nor behaviour, only disk usage and link time
+    c.env("CARGO_PROFILE_DEV_DEBUG", "0");
+    c.env("CARGO_PROFILE_TEST_DEBUG", "0");
+    for k in ["RUSTFLAGS", "CARGO_ENCODED_RUSTFLAGS", "CARGO_BUILD_RUSTFLAGS", "RUSTDOCFLAGS", "RUSTC_WRAPPER", "CARGO_BUILD_TARGET"] {
+        c.env_remove(k);
+    }
+    let _ = ctx;
+    c
+}
+
+fn load_tree(ctx: &Ctx) -> Result<Tree, String> {
+    let mut c = base_cargo(ctx);
+    c.current_dir(&ctx.mirror).args(["metadata", "--format-version", "1", "--no-deps", "--offline"]);
+    let out = c.output().map_err(|e| format!("cargo metadata: {e}"))?;
+    if !out.status.success() {
+        return Err(format!("cargo metadata failed on the mirror: {}", tail(&String::from_utf8_lossy(&out.stderr), 1500)));
+    }
+    let v: Value = serde_json::from_slice(&out.stdout).map_err(|e| format!("cargo metadata output: {e}"))?;
+    let pkgs = v["packages"].as_array().cloned().unwrap_or_default();
+    let facade = pkgs.iter().find(|p| p["name"] == "derive_more").ok_or("package derive_more not found in the mirror")?;
+    let imp = pkgs.iter().find(|p| p["name"] == "derive_more-impl").ok_or("package derive_more-impl not found in the mirror")?;
+    let mut facade_graph = BTreeMap::new();
+    for (k, l) in facade["features"].as_object().cloned().unwrap_or_default() {
+        let l: Vec<String> = l.as_array().cloned().unwrap_or_default().iter().filter_map(|x| x.as_str().map(|s| s.to_string())).collect();
+        facade_graph.insert(k, l);
+    }
+    let impl_features: BTreeSet<String> = imp["features"].as_object().map(|m| m.keys().cloned().collect()).unwrap_or_default();
+    let mut derive_features: Vec<String> = facade_graph
+        .iter()
+        .filter(|(k, l)| l.iter().any(|d| d == &format!("derive_more-impl/{k}")) && k.as_str() != "testing-helpers")
+        .map(|(k, _)| k.clone())
+        .collect();
+    derive_features.sort();
+    for f in &derive_features {
+        if !impl_features.contains(f) {
+            return Err(format!("facade feature `{f}` forwards to a feature derive_more-impl does not declare"));
+        }
+    }
+    // The export table below is static (it is the documented contract, not something to be read off the tree under
+    // test); if the tree grows or loses a derive feature the table has to be revisited by a human.
+    let mine: BTreeSet<&str> = DERIVES.iter().map(|d| d.feature).collect();
+    let theirs: BTreeSet<&str> = derive_features.iter().map(|s| s.as_str()).collect();
+    if mine != theirs {
+        return Err(format!(
+            "the derive features of the tree ({:?}) differ from the export table of the check ({:?}); update harness/src/v/p20.rs",
+            theirs.symmetric_difference(&mine).collect::<Vec<_>>(),
+            mine.len()
+        ));
+    }
+    if !facade_graph.contains_key("std") || !facade_graph.contains_key("full") {
+        return Err("the facade crate no longer declares the `std` / `full` features".into());
+    }
+    let mut tests = vec![];
+    for t in facade["targets"].as_array().cloned().unwrap_or_default() {
+        if t["kind"].as_array().is_some_and(|k| k.iter().any(|x| *x == "test")) {
+            let req: Vec<String> = t["required-features"].as_array().cloned().unwrap_or_default().iter().filter_map(|x| x.as_str().map(|s| s.to_string())).collect();
+            tests.push((t["name"].as_str().unwrap_or("").to_string(), req));
+        }
+    }
+    tests.sort();
+    Ok(Tree { derive_features, facade_graph, tests })
+}
+
+// ------------------------------------------------------------------------------------------------------------
+// the export table (oracle 2)
+// ------------------------------------------------------------------------------------------------------------
+
+#[derive(Clone, Copy, PartialEq, Eq, Debug)]
+enum Expect {
+    /// resolves iff one of the owning features is enabled
+    Exact,
+    /// must resolve when an owning feature is enabled; nothing is asserted otherwise (the docs are silent)
+    PresentOnly,
+    /// must never resolve
+    Never,
+    /// must always resolve
+    Always,
+}
+
+struct Probe {
+    /// human-readable item name, e.g. `with_trait::Display (trait)`
+    what: String,
+    /// one line of Rust
+    src: String,
+    owners: Vec<&'static str>,
+    expect: Expect,
+}
+
+/// Generic arguments needed to name the std trait a derive stands for; `None` = the derive has no std trait.
+fn std_trait_args(derive: &str) -> Option<&'static str> {
+    Some(match derive {
+        "Constructor" | "IsVariant" | "Unwrap" | "TryUnwrap" => return None,
+        "AsRef" | "AsMut" | "From" | "Into" | "TryFrom" | "TryInto" => "<u8>",
+        "Index" | "IndexMut" => "<usize>",
+        _ => "",
+    })
+}
+
+/// The table feature -> exported items.
+///
+/// Grounding: README "Re-exports" (macros only at the crate root and in `derive`; macro *and* std trait in
+/// `with_trait`), README "Installation" (each derive has to be enabled by its feature), impl/src/lib.rs
+/// (`create_derive!` feature per macro — cross-checked against the tree by `dm::crosscheck_table`), the helper error
+/// types named in impl/doc/{add,not,from_str,try_into,try_unwrap}.md and the `cfg`s of the pinned src/lib.rs
+/// (`UnitError` belongs to `add` *or* `not`, `TryFromReprError` to `try_from`, ...). `__private` is "not public,
+/// but exported API for macro expansions": only its presence under the owning feature is asserted.
+fn probes() -> Vec<Probe> {
+    let mut v = vec![];
+    let mut n = 0usize;
+    let mut fresh = || {
+        n += 1;
+        n
+    };
+    v.push(Probe { what: "core (re-export used by the expansions)".into(), src: "use derive_more::core as _;".into(), owners: vec![], expect: Expect::Always });
+    for d in DERIVES {
+        for prefix in ["", "derive::", "with_trait::"] {
+            v.push(Probe {
+                what: format!("{prefix}{} (derive macro)", d.name),
+                src: format!("use derive_more::{prefix}{} as _;", d.name),
+                owners: vec![d.feature],
+                expect: Expect::Exact,
+            });
+        }
+        if let Some(args) = std_trait_args(d.name) {
+            v.push(Probe {
+                what: format!("with_trait::{} (std trait)", d.name),
+                src: format!("fn _p{}<T: derive_more::with_trait::{}{args}>() {{}}", fresh(), d.name),
+                owners: vec![d.feature],
+                expect: Expect::Exact,
+            });
+            // README: "derive macros only, without the corresponding traits, are imported from the crate's root
+            // (or from the `derive` module)"
+            for prefix in ["", "derive::"] {
+                v.push(Probe {
+                    what: format!("{prefix}{} used as a trait (the root and `derive` export macros only)", d.name),
+                    src: format!("fn _p{}<T: derive_more::{prefix}{}{args}>() {{}}", fresh(), d.name),
+                    owners: vec![d.feature],
+                    expect: Expect::Never,
+                });
+            }
+        }
+    }
+    let helpers: &[(&str, &[&'static str])] = &[
+        ("BinaryError", &["add"]),
+        ("WrongVariantError", &["add"]),
+        ("UnitError", &["add", "not"]),
+        ("FromStrError", &["from_str"]),
+        ("TryFromReprError", &["try_from"]),
+        ("TryIntoError", &["try_into"]),
+        ("TryUnwrapError", &["try_unwrap"]),
+    ];
+    for (name, owners) in helpers {
+        v.push(Probe { what: format!("{name} (helper type)"), src: format!("use derive_more::{name} as _;"), owners: owners.to_vec(), expect: Expect::Exact });
+    }
+    let private: &[(&str, &'static str)] =
+        &[("Conv", "as_ref"), ("ExtractRef", "as_ref"), ("debug_tuple", "debug"), ("DebugTuple", "debug"), ("AsDynError", "error")];
+    for (name, owner) in private {
+        v.push(Probe {
+            what: format!("__private::{name} (expansion helper)"),
+            src: format!("use derive_more::__private::{name} as _;"),
+            owners: vec![*owner],
+            expect: Expect::PresentOnly,
+        });
+    }
+    v
+}
+
+/// `Some(true)` must resolve, `Some(false)` must not, `None` nothing asserted.
+fn expected_resolves(p: &Probe, enabled: &BTreeSet<String>) -> Option<bool> {
+    let owned = p.owners.iter().any(|o| enabled.contains(*o));
+    match p.expect {
+        Expect::Exact => Some(owned),
+        Expect::PresentOnly => owned.then_some(true),
+        Expect::Never => Some(false),
+        Expect::Always => Some(true),
+    }
+}
+
+const PROBE_HEADER_LINES: usize = 2;
+
+fn probe_source(probes: &[Probe], dropped: &BTreeSet<usize>) -> String {
+    let mut s = String::from("// generated by the C20 check: one exported item per line\n#![allow(unused_imports, dead_code)]\n");
+    for (i, p) in probes.iter().enumerate() {
+        if !dropped.contains(&i) {
+            s.push_str(&p.src);
+        }
+        s.push('\n');
+    }
+    s
+}
+
+// ------------------------------------------------------------------------------------------------------------
+// running cargo
+// ------------------------------------------------------------------------------------------------------------
+
+#[derive(Clone, Copy, PartialEq, Eq, Debug)]
+enum Origin {
+    Tree,
+    Probe,
+    Foreign,
+}
+
+#[derive(Clone, Debug)]
+struct Diag {
+    origin: Origin,
+    target: String,
+    line: usize,
+    code: String,
+    message: String,
+    rendered: String,
+}
+
+struct CargoOut {
+    ok: bool,
+    timed_out: bool,
+    errors: Vec<Diag>,
+    /// stdout lines that are not cargo JSON messages (libtest output)
+    text: String,
+    stderr: String,
+}
+
+fn tail(s: &str, n: usize) -> String {
+    let c: Vec<char> = s.chars().collect();
+    if c.len() <= n {
+        s.to_string()
+    } else {
+        format!("…{}", c[c.len() - n..].iter().collect::<String>())
+    }
+}
+
+fn head(s: &str, n: usize) -> String {
+    if s.chars().count() <= n {
+        s.to_string()
+    } else {
+        format!("{}…", s.chars().take(n).collect::<String>())
+    }
+}
+
+fn run_cargo(ctx: &Ctx, cmd: &mut Command, timeout: Duration) -> Result<CargoOut, String> {
+    cmd.stdin(Stdio::null()).stdout(Stdio::piped()).stderr(Stdio::piped());
+    let mut child = cmd.spawn().map_err(|e| format!("cannot start cargo: {e}"))?;
+    let mut so = child.stdout.take().unwrap();
+    let mut se = child.stderr.take().unwrap();
+    let h1 = std::thread::spawn(move || {
+        let mut b = Vec::new();
+        let _ = so.read_to_end(&mut b);
+        String::from_utf8_lossy(&b).into_owned()
+    });
+    let h2 = std::thread::spawn(move || {
+        let mut b = Vec::new();
+        let _ = se.read_to_end(&mut b);
+        String::from_utf8_lossy(&b).into_owned()
+    });
+    let start = Instant::now();
+    let mut timed_out = false;
+    let status = loop {
+        match child.try_wait() {
+            Ok(Some(s)) => break Some(s),
+            Ok(None) => {
+                if start.elapsed() > timeout {
+                    let _ = child.kill();
+                    let _ = child.wait();
+                    timed_out = true;
+                    break None;
+                }
+                std::thread::sleep(Duration::from_millis(25));
+            }
+            Err(e) => return Err(format!("waiting for cargo: {e}")),
+        }
+    };
+    let stdout = h1.join().unwrap_or_default();
+    let stderr = h2.join().unwrap_or_default();
+    let mirror = ctx.mirror.display().to_string();
+    let gen = ctx.work_dir.join("gen").display().to_string();
+    let mut errors = vec![];
+    let mut text = String::new();
+    for line in stdout.lines() {
+        let v: Value = match line.starts_with('{').then(|| serde_json::from_str::<Value>(line).ok()).flatten() {
+            Some(v) if v["reason"].is_string() => v,
+            _ => {
+                text.push_str(line);
+                text.push('\n');
+                continue;
+            }
+        };
+        if v["reason"] != "compiler-message" {
+            continue;
+        }
+        let m = &v["message"];
+        if m["level"] != "error" {
+            continue;
+        }
+        let msg = m["message"].as_str().unwrap_or("").to_string();
+        if msg.starts_with("aborting due to") {
+            continue;
+        }
+        let manifest = v["manifest_path"].as_str().unwrap_or("");
+        let origin = if manifest.starts_with(&mirror) {
+            Origin::Tree
+        } else if manifest.starts_with(&gen) {
+            Origin::Probe
+        } else {
+            Origin::Foreign
+        };
+        let mut line_no = 0usize;
+        if let Some(spans) = m["spans"].as_array() {
+            let prim = spans.iter().find(|s| s["is_primary"] == true).or_else(|| spans.first());
+            if let Some(mut s) = prim {
+                // follow macro expansions back to the outermost call site
+                loop {
+                    let next = &s["expansion"]["span"];
+                    if next.is_null() {
+                        break;
+                    }
+                    s = next;
+                }
+                line_no = s["line_start"].as_u64().unwrap_or(0) as usize;
+            }
+        }
+        errors.push(Diag {
+            origin,
+            target: v["target"]["name"].as_str().unwrap_or("").to_string(),
+            line: line_no,
+            code: m["code"]["code"].as_str().unwrap_or("").to_string(),
+            message: msg,
+            rendered: m["rendered"].as_str().unwrap_or("").to_string(),
+        });
+    }
+    Ok(CargoOut { ok: status.is_some_and(|s| s.success()), timed_out, errors, text, stderr })
+}
+
+// ------------------------------------------------------------------------------------------------------------
+// evaluating one configuration
+// ------------------------------------------------------------------------------------------------------------
+
+#[derive(Clone, Debug)]
+struct StageFail {
+    stage: &'static str,
+    summary: String,
+    expected: String,
+    observed: String,
+}
+
+#[derive(Clone, Debug, Default)]
+struct SetResult {
+    fails: Vec<StageFail>,
+    infra: Vec<String>,
+    build_ok: bool,
+    exports_ok: bool,
+    tests_ok: bool,
+    probes_asserted: usize,
+    items_resolved: usize,
+    tests_run: Vec<String>,
+    test_fns_passed: u64,
+    secs: f64,
+}
+
+struct Slot {
+    target: PathBuf,
+    probe_dir: PathBuf,
+    jobs: usize,
+}
+
+fn slot(ctx: &Ctx, k: usize, jobs: usize) -> Slot {
+    Slot { target: ctx.work_dir.join(format!("tgt-c20-{k}")), probe_dir: ctx.work_dir.join("gen").join(format!("c20_probe_{k}")), jobs }
+}
+
+fn write_if_changed(p: &Path, s: &str) -> Result<(), String> {
+    if std::fs::read_to_string(p).is_ok_and(|old| old == s) {
+        return Ok(());
+    }
+    std::fs::write(p, s).map_err(|e| format!("{}: {e}", p.display()))
+}
+
+fn cargo_in(ctx: &Ctx, sl: &Slot, dir: &Path) -> Command {
+    let mut c = base_cargo(ctx);
+    c.current_dir(dir);
+    c.env("CARGO_TARGET_DIR", &sl.target);
+    c
+}
+
+fn render_errors(errs: &[&Diag], n: usize) -> String {
+    let mut s = String::new();
+    for d in errs.iter().take(n) {
+        s.push_str(&head(d.rendered.trim_end(), 900));
+        s.push('\n');
+    }
+    if errs.len() > n {
+        s.push_str(&format!("(+ {} more errors)\n", errs.len() - n));
+    }
+    s
+}
+
+const CMD_TIMEOUT: Duration = Duration::from_secs(1500);
+
+/// Judges a `cargo check`/`cargo test --no-run`-like result: `Ok(None)` fine, `Ok(Some(errors))` the tree does not
+/// build, `Err` infrastructure.
+fn judge_build<'a>(what: &str, out: &'a CargoOut) -> Result<Option<Vec<&'a Diag>>, String> {
+    if out.timed_out {
+        return Err(format!("{what}: cargo did not finish within {} s", CMD_TIMEOUT.as_secs()));
+    }
+    let tree: Vec<&Diag> = out.errors.iter().filter(|d| d.origin == Origin::Tree).collect();
+    if !tree.is_empty() {
+        return Ok(Some(tree));
+    }
+    if !out.ok {
+        let foreign: Vec<&Diag> = out.errors.iter().filter(|d| d.origin == Origin::Foreign).collect();
+        if !foreign.is_empty() {
+            return Err(format!("{what}: a dependency outside the tree does not build: {}", head(&foreign[0].rendered, 600)));
+        }
+        return Err(format!("{what}: cargo failed without compiler diagnostics: {}", tail(&out.stderr, 1200)));
+    }
+    Ok(None)
+}
+
+fn eval_set(ctx: &Ctx, tree: &Tree, set: &FeatSet, sl: &Slot) -> SetResult {
+    let t0 = Instant::now();
+    let mut r = SetResult::default();
+    let jobs = sl.jobs.to_string();
+    for f in &set.feats {
+        if !tree.facade_graph.contains_key(f) || f == "std" || f == "default" || f == "testing-helpers" {
+            r.infra.push(format!("`{f}` is not a derive feature (or `full`) of the tree under test"));
+            return r;
+        }
+    }
+    let enabled = tree.enabled_derive_features(set);
+
+    // ---- (1) both crates build -------------------------------------------------------------------------------
+    let stages: [(&'static str, &str, String); 2] =
+        [("build-impl", "derive_more-impl", set.impl_arg()), ("build-facade", "derive_more", set.facade_arg())];
+    for (stage, pkg, feats) in stages {
+        let mut c = cargo_in(ctx, sl, &ctx.mirror);
+        c.args(["check", "--offline", "-q", "--message-format=json", "-j", &jobs, "-p", pkg, "--no-default-features", "--features", &feats]);
+        let cmdline = format!("cargo check -p {pkg} --no-default-features --features {feats}");
+        match run_cargo(ctx, &mut c, CMD_TIMEOUT).and_then(|o| judge_build(&cmdline, &o).map(|j| j.map(|e| (e.len(), e[0].code.clone(), head(&e[0].message, 160), render_errors(&e, 3))))) {
+            Err(e) => {
+                r.infra.push(e);
+                r.secs = t0.elapsed().as_secs_f64();
+                return r;
+            }
+            Ok(Some((n, code, first, rendered))) => {
+                r.fails.push(StageFail {
+                    stage,
+                    summary: format!("`{pkg}` does not build: {n} error(s), first: {}{first}", if code.is_empty() { String::new() } else { format!("[{code}] ") }),
+                    expected: format!("`{cmdline}` finishes without errors"),
+                    observed: rendered,
+                });
+                // nothing else can be observed for a configuration that does not build
+                r.secs = t0.elapsed().as_secs_f64();
+                return r;
+            }
+            Ok(None) => {}
+        }
+    }
+    r.build_ok = true;
+
+    // ---- (2) exactly the items of the enabled features are exposed ---------------------------------------------
+    match probe_exports(ctx, sl, set, &enabled) {
+        Err(e) => r.infra.push(e),
+        Ok((asserted, resolved, missing, leaked)) => {
+            r.probes_asserted = asserted;
+            r.items_resolved = resolved;
+            if missing.is_empty() && leaked.is_empty() {
+                r.exports_ok = true;
+            } else {
+                let mut obs = String::new();
+                if !missing.is_empty() {
+                    obs.push_str(&format!("not exposed although the feature is enabled: {}\n", missing.iter().map(|(w, m)| format!("{w} [{m}]")).collect::<Vec<_>>().join("; ")));
+                }
+                if !leaked.is_empty() {
+                    obs.push_str(&format!("exposed although no owning feature is enabled: {}\n", leaked.join("; ")));
+                }
+                let first = missing.first().map(|(w, _)| format!("missing {w}")).or_else(|| leaked.first().map(|w| format!("unexpected {w}"))).unwrap_or_default();
+                r.fails.push(StageFail {
+                    stage: "exports",
+                    summary: format!("exported items differ from the enabled features ({} missing, {} unexpected), first: {first}", missing.len(), leaked.len()),
+                    expected: format!("exactly the derives and helper items of {{{}}} resolve in a crate depending on derive_more with these features", enabled.iter().cloned().collect::<Vec<_>>().join(", ")),
+                    observed: obs,
+                });
+            }
+        }
+    }
+
+    // ---- (3) the repository's own test programs for the enabled derives pass ------------------------------------
+    let tests = tree.eligible_tests(set);
+    let mut c = cargo_in(ctx, sl, &ctx.mirror);
+    c.args(["test", "--offline", "--no-fail-fast", "--message-format=json", "-j", &jobs, "-p", "derive_more", "--no-default-features", "--features", &set.facade_arg(), "--lib"]);
+    for t in &tests {
+        c.arg("--test").arg(t);
+    }
+    let cmdline = format!(
+        "cargo test -p derive_more --no-default-features --features {} --lib {}",
+        set.facade_arg(),
+        tests.iter().map(|t| format!("--test {t}")).collect::<Vec<_>>().join(" ")
+    );
+    match run_cargo(ctx, &mut c, CMD_TIMEOUT) {
+        Err(e) => r.infra.push(e),
+        Ok(out) => {
+            let compile_errs: Vec<&Diag> = out.errors.iter().filter(|d| d.origin == Origin::Tree).collect();
+            if out.timed_out {
+                r.infra.push(format!("{cmdline}: did not finish within {} s", CMD_TIMEOUT.as_secs()));
+            } else if !compile_errs.is_empty() {
+                let mut targets: Vec<String> = compile_errs.iter().map(|d| d.target.clone()).collect();
+                targets.sort();
+                targets.dedup();
+                r.fails.push(StageFail {
+                    stage: "tests-compile",
+                    summary: format!(
+                        "test program(s) {} do not compile: {} error(s), first: {}{}",
+                        targets.join(", "),
+                        compile_errs.len(),
+                        if compile_errs[0].code.is_empty() { String::new() } else { format!("[{}] ", compile_errs[0].code) },
+                        head(&compile_errs[0].message, 160)
+                    ),
+                    expected: format!("`{cmdline}` builds and passes"),
+                    observed: render_errors(&compile_errs, 3),
+                });
+            } else if !out.ok {
+                let mut failed_targets: Vec<String> = out
+                    .stderr
+                    .lines()
+                    .filter_map(|l| l.split("to rerun pass `").nth(1).and_then(|r| r.split('`').next()).map(|s| s.to_string()))
+                    .collect();
+                failed_targets.sort();
+                failed_targets.dedup();
+                let failed_fns: Vec<String> = out
+                    .text
+                    .lines()
+                    .filter(|l| l.starts_with("test ") && l.trim_end().ends_with("FAILED"))
+                    .map(|l| l.trim_start_matches("test ").split(" ...").next().unwrap_or("").to_string())
+                    .collect();
+                if failed_targets.is_empty() && failed_fns.is_empty() {
+                    let foreign: Vec<&Diag> = out.errors.iter().filter(|d| d.origin == Origin::Foreign).collect();
+                    r.infra.push(format!(
+                        "{cmdline}: cargo failed but no test failure could be identified: {}",
+                        foreign.first().map(|d| head(&d.rendered, 600)).unwrap_or_else(|| tail(&out.stderr, 1200))
+                    ));
+                } else {
+                    r.fails.push(StageFail {
+                        stage: "tests-run",
+                        summary: format!("test program(s) fail: {}; failing tests: {}", failed_targets.join(", "), head(&failed_fns.join(", "), 300)),
+                        expected: format!("`{cmdline}` passes"),
+                        observed: tail(&out.text, 2500),
+                    });
+                }
+            } else {
+                r.tests_ok = true;
+            }
+            for l in out.text.lines() {
+                if let Some(rest) = l.strip_prefix("test result: ok. ") {
+                    r.test_fns_passed += rest.split(' ').next().and_then(|n| n.parse::<u64>().ok()).unwrap_or(0);
+                }
+            }
+            r.tests_run = tests;
+        }
+    }
+    r.secs = t0.elapsed().as_secs_f64();
+    r
+}
+
+/// Oracle 2. Returns (asserted probes, items that resolve, missing [(item, rustc message)], leaked [item]).
+#[allow(clippy::type_complexity)]
+fn probe_exports(ctx: &Ctx, sl: &Slot, set: &FeatSet, enabled: &BTreeSet<String>) -> Result<(usize, usize, Vec<(String, String)>, Vec<String>), String> {
+    let probes = probes();
+    let dir = &sl.probe_dir;
+    std::fs::create_dir_all(dir.join("src")).map_err(|e| e.to_string())?;
+    let mut feats: Vec<String> = set.feats.iter().map(|f| format!("\"{f}\"")).collect();
+    if set.std {
+        feats.push("\"std\"".into());
+    }
+    let toml = format!(
+        "[package]\nname = \"c20_probe\"\nversion = \"0.0.0\"\nedition = \"2021\"\n\n[workspace]\n\n[dependencies]\nderive_more = {{ path = \"{}\", default-features = false, features = [{}] }}\n",
+        ctx.mirror.display(),
+        feats.join(", ")
+    );
+    write_if_changed(&dir.join("Cargo.toml"), &toml)?;
+    if !dir.join("Cargo.lock").exists() {
+        let _ = std::fs::copy(ctx.mirror.join("Cargo.lock"), dir.join("Cargo.lock"));
+    }
+    let mut unresolved: BTreeMap<usize, String> = BTreeMap::new();
+    let mut rounds = 0;
+    loop {
+        rounds += 1;
+        let dropped: BTreeSet<usize> = unresolved.keys().copied().collect();
+        // always rewritten: the file content is what cargo fingerprints by mtime
+        std::fs::write(dir.join("src/lib.rs"), probe_source(&probes, &dropped)).map_err(|e| e.to_string())?;
+        let mut c = cargo_in(ctx, sl, dir);
+        c.args(["check", "--offline", "-q", "--message-format=json", "-j", &sl.jobs.to_string()]);
+        let out = run_cargo(ctx, &mut c, CMD_TIMEOUT)?;
+        if out.timed_out {
+            return Err("probe crate: cargo did not finish".into());
+        }
+        if let Some(d) = out.errors.iter().find(|d| d.origin != Origin::Probe) {
+            return Err(format!("probe crate: derive_more or a dependency failed to build although `cargo check` succeeded before: {}", head(&d.rendered, 600)));
+        }
+        let mut new = 0;
+        for d in &out.errors {
+            let idx = d.line.wrapping_sub(PROBE_HEADER_LINES + 1);
+            if d.line == 0 || idx >= probes.len() {
+                return Err(format!("probe crate: diagnostic that does not belong to a probe line: {}", head(&d.rendered, 600)));
+            }
+            if !unresolved.contains_key(&idx) {
+                new += 1;
+                unresolved.insert(idx, format!("{}{}", if d.code.is_empty() { String::new() } else { format!("{} ", d.code) }, head(&d.message, 120)));
+            }
+        }
+        if out.ok && out.errors.is_empty() {
+            break;
+        }
+        if new == 0 {
+            return Err(format!("probe crate: cargo failed without new diagnostics: {}", tail(&out.stderr, 800)));
+        }
+        if rounds >= 5 {
+            return Err("probe crate: no compiling fixpoint after 5 rounds".into());
+        }
+    }
+    let mut asserted = 0;
+    let mut missing = vec![];
+    let mut leaked = vec![];
+    for (i, p) in probes.iter().enumerate() {
+        let resolves = !unresolved.contains_key(&i);
+        match expected_resolves(p, enabled) {
+            None => {}
+            Some(e) => {
+                asserted += 1;
+                if e && !resolves {
+                    missing.push((p.what.clone(), unresolved[&i].clone()));
+                } else if !e && resolves {
+                    leaked.push(p.what.clone());
+                }
+            }
+        }
+    }
+    Ok((asserted, probes.len() - unresolved.len(), missing, leaked))
+}
+
+// ------------------------------------------------------------------------------------------------------------
+// the matrix driver
+// ------------------------------------------------------------------------------------------------------------
+
+fn env_usize(name: &str, default: usize) -> usize {
+    std::env::var(name).ok().and_then(|s| s.trim().parse().ok()).unwrap_or(default)
+}
+
+fn dir_size(p: &Path) -> u64 {
+    let mut total = 0;
+    let Ok(rd) = std::fs::read_dir(p) else { return 0 };
+    for e in rd.flatten() {
+        let Ok(ft) = e.file_type() else { continue };
+        if ft.is_dir() {
+            total += dir_size(&e.path());
+        } else if let Ok(m) = e.metadata() {
+            total += m.len();
+        }
+    }
+    total
+}
+
+/// Drops the artifacts of the two workspace crates (one set per feature combination) and keeps the dependencies.
+fn trim_slot(ctx: &Ctx, sl: &Slot) {
+    let mut c = cargo_in(ctx, sl, &ctx.mirror);
+    c.args(["clean", "--offline", "-q", "-p", "derive_more", "-p", "derive_more-impl"]);
+    let _ = c.output();
+}
+
+const SLOT_TRIM_BYTES: u64 = 500_000_000;
+const TOTAL_KEEP_BYTES: u64 = 3_000_000_000;
+
+/// Evaluates `sets` on `nslots` parallel slots. The first `mandatory` sets are always evaluated; later ones only
+/// while the budget lasts (a `None` result = not run).
+fn run_sets(ctx: &Ctx, tree: &Tree, sets: &[FeatSet], nslots: usize, jobs: usize, mandatory: usize, budget_s: f64) -> Vec<Option<SetResult>> {
+    let next = AtomicUsize::new(0);
+    let results: Mutex<Vec<Option<SetResult>>> = Mutex::new(vec![None; sets.len()]);
+    std::thread::scope(|s| {
+        for k in 0..nslots.min(sets.len()).max(1) {
+            let next = &next;
+            let results = &results;
+            s.spawn(move || {
+                let sl = slot(ctx, k, jobs);
+                let mut done = 0usize;
+                loop {
+                    let i = next.fetch_add(1, Ordering::SeqCst);
+                    if i >= sets.len() {
+                        break;
+                    }
+                    if i >= mandatory && ctx.elapsed() > budget_s {
+                        break;
+                    }
+                    let r = eval_set(ctx, tree, &sets[i], &sl);
+                    results.lock().unwrap()[i] = Some(r);
+                    done += 1;
+                    if done % 4 == 0 && dir_size(&sl.target) > SLOT_TRIM_BYTES {
+                        trim_slot(ctx, &sl);
+                    }
+                }
+            });
+        }
+    });
+    results.into_inner().unwrap()
+}
+
+fn shuffled<T: Clone + std::fmt::Debug>(runner: &mut TestRunner, v: Vec<T>) -> Vec<T> {
+    if v.len() < 2 {
+        return v;
+    }
+    let s = Just(v.clone()).prop_shuffle();
+    draw(runner, &s, 1).pop().map(|t| t.current()).unwrap_or(v)
+}
+
+fn draw_u16s(runner: &mut TestRunner, n: usize) -> Vec<u16> {
+    draw(runner, &any::<u16>(), n).iter().map(|t| t.current()).collect()
+}
+
+fn all_pairs(feats: &[String]) -> Vec<(String, String)> {
+    let mut v = vec![];
+    for i in 0..feats.len() {
+        for j in i + 1..feats.len() {
+            v.push((feats[i].clone(), feats[j].clone()));
+        }
+    }
+    v
+}
+
+fn larger_subset(runner: &mut TestRunner, feats: &[String], max: usize) -> FeatSet {
+    let d = draw_u16s(runner, 2);
+    let size = 3 + pick_idx(d[0], max.saturating_sub(2).max(1));
+    let perm = shuffled(runner, feats.to_vec());
+    FeatSet::new(perm.into_iter().take(size).collect(), d[1] & 1 == 1)
+}
+
+const QUICK_PAIRS: usize = 10;
+
+/// quick tier: the two corner sets, every derive feature on its own once (the `std` state of each is drawn per pair
+/// of seeds and flipped on odd seeds, so seeds 2k and 2k+1 together cover all 48 single configurations), a rotating
+/// window of 10 pairs (28 consecutive seeds cover all 276 pairs) and one random larger subset.
+fn plan_quick(ctx: &Ctx, tree: &Tree) -> Vec<FeatSet> {
+    let feats = &tree.derive_features;
+    let mut sets = vec![FeatSet::new(vec!["full".into()], false), FeatSet::new(vec!["constructor".into()], true)];
+    // singles
+    let mut er = runner_for(ctx.seed / 2, &ctx.property, 100);
+    let perm = shuffled(&mut er, feats.clone());
+    let bits = draw_u16s(&mut er, perm.len());
+    let flip = ctx.seed % 2 == 1;
+    for i in 0..perm.len() {
+        let std = (bits[i] & 1 == 1) ^ flip;
+        sets.push(FeatSet::new(vec![perm[i].clone()], std));
+    }
+    // pairs
+    let pairs = all_pairs(feats);
+    let windows = pairs.len().div_ceil(QUICK_PAIRS) as u64;
+    let mut pr = runner_for(ctx.seed / windows, &ctx.property, 101);
+    let pperm = shuffled(&mut pr, pairs);
+    let pw = (ctx.seed % windows) as usize;
+    let mut sr = ctx.runner(2);
+    let pbits = draw_u16s(&mut sr, QUICK_PAIRS);
+    for k in 0..QUICK_PAIRS {
+        let (a, b) = pperm[(pw * QUICK_PAIRS + k) % pperm.len()].clone();
+        sets.push(FeatSet::new(vec![a, b], pbits[k] & 1 == 1));
+    }
+    // one larger subset
+    let mut lr = ctx.runner(3);
+    sets.push(larger_subset(&mut lr, feats, 6));
+    dedup_keep_order(sets)
+}
+
+const THOROUGH_EXTRA_LARGER: usize = 54;
+
+/// thorough tier: (mandatory) `full` with and without std and all 48 single configurations; then all 552 pair
+/// configurations in seeded order with a random larger subset (3..=12 features) after every 12th and 54 more at the
+/// end, as far as the budget allows.
+fn plan_thorough(ctx: &Ctx, tree: &Tree) -> (Vec<FeatSet>, usize) {
+    let feats = &tree.derive_features;
+    let mut sets = vec![FeatSet::new(vec!["full".into()], false), FeatSet::new(vec!["full".into()], true)];
+    for f in feats {
+        sets.push(FeatSet::new(vec![f.clone()], false));
+        sets.push(FeatSet::new(vec![f.clone()], true));
+    }
+    let mandatory = sets.len();
+    let mut cfgs = vec![];
+    for (a, b) in all_pairs(feats) {
+        cfgs.push(FeatSet::new(vec![a.clone(), b.clone()], false));
+        cfgs.push(FeatSet::new(vec![a, b], true));
+    }
+    let mut r1 = ctx.runner(1);
+    let cfgs = shuffled(&mut r1, cfgs);
+    let mut lr = ctx.runner(3);
+    for (i, c) in cfgs.into_iter().enumerate() {
+        sets.push(c);
+        if i % 12 == 11 {
+            sets.push(larger_subset(&mut lr, feats, 12));
+        }
+    }
+    // once the pair space is complete the rest of the fixed plan is more random larger subsets
+    for _ in 0..THOROUGH_EXTRA_LARGER {
+        sets.push(larger_subset(&mut lr, feats, 12));
+    }
+    (dedup_keep_order(sets), mandatory)
+}
+
+fn dedup_keep_order(sets: Vec<FeatSet>) -> Vec<FeatSet> {
+    let mut seen = BTreeSet::new();
+    sets.into_iter().filter(|s| seen.insert(s.clone())).collect()
+}
+
+fn violations_of(set: &FeatSet, r: &SetResult, minimised_from: Option<&FeatSet>) -> Vec<Violation> {
+    r.fails
+        .iter()
+        .map(|f| {
+            let mut case = set.to_json();
+            case["stage"] = json!(f.stage);
+            if let Some(m) = minimised_from {
+                case["minimised_from"] = m.to_json();
+            }
+            Violation { sig: None, summary: format!("features {}: {}", set.key(), f.summary), case, expected: f.expected.clone(), observed: f.observed.clone() }
+        })
+        .collect()
+}
+
+/// Greedy minimisation of a failing larger subset: drop one feature at a time while the same stage keeps failing.
+fn minimise(ctx: &Ctx, tree: &Tree, set: &FeatSet, res: &SetResult, sl: &Slot) -> (FeatSet, SetResult) {
+    let stage = res.fails[0].stage;
+    let mut cur = set.clone();
+    let mut cur_res = res.clone();
+    let mut steps = 0;
+    let mut progress = true;
+    while progress && cur.feats.len() > 1 && steps < 16 {
+        progress = false;
+        for i in 0..cur.feats.len() {
+            let mut f = cur.feats.clone();
+            f.remove(i);
+            let cand = FeatSet::new(f, cur.std);
+            steps += 1;
+            let r = eval_set(ctx, tree, &cand, sl);
+            if r.infra.is_empty() && r.fails.iter().any(|x| x.stage == stage) {
+                cur = cand;
+                cur_res = r;
+                progress = true;
+                break;
+            }
+            if steps >= 16 {
+                break;
+            }
+        }
+    }
+    (cur, cur_res)
+}
+
+fn assumptions() -> Vec<String> {
+    vec![
+        "cargo/rustc of the installed stable toolchain, offline, the repository's own Cargo.lock; debuginfo and incremental compilation are switched off (no influence on verdicts)".into(),
+        "only error-level diagnostics count as 'does not build' (no -D warnings: the installed rustc is newer than the pinned toolchain and emits lints the upstream CI did not see)".into(),
+        "the test programs run are those cargo selects for `--tests` under the feature set (required-features satisfied) plus the lib unit tests; `compile_fail` (trybuild, needs the network and fails in the baseline) is excluded".into(),
+        "the export table is static and grounded in README (Re-exports, Installation), impl/doc/*.md (helper error types) and the cfg gates of the pinned src/lib.rs; for `__private::*` only presence under the owning feature is asserted".into(),
+        "the facade's `std` feature has no counterpart in derive_more-impl, so F' = F without `std`".into(),
+    ]
+}
+
+pub fn run(ctx: &Ctx) -> Report {
+    let mut rep = Report::new(RULE);
+    rep.evidence.assumptions = assumptions();
+    rep.evidence.max_samples = 10;
+    let tree = match load_tree(ctx) {
+        Ok(t) => t,
+        Err(e) => {
+            rep.infra_errors.push(e);
+            return rep;
+        }
+    };
+    let nslots = env_usize("DMV_C20_SLOTS", 8).clamp(1, 8);
+    let jobs = env_usize("DMV_C20_JOBS", 4).clamp(1, 16);
+    let budget = env_usize("DMV_C20_BUDGET_S", 1800) as f64;
+    // stale slots of an earlier run with more slots
+    for k in nslots..16 {
+        let _ = std::fs::remove_dir_all(slot(ctx, k, jobs).target);
+    }
+    let (sets, mandatory) = match ctx.tier {
+        Tier::Quick => {
+            let s = plan_quick(ctx, &tree);
+            let n = s.len();
+            (s, n)
+        }
+        Tier::Thorough => plan_thorough(ctx, &tree),
+    };
+    let results = run_sets(ctx, &tree, &sets, nslots, jobs, mandatory, budget);
+
+    let nfeat = tree.derive_features.len();
+    let mut ran_keys = vec![];
+    let (mut singles, mut pairs, mut larger) = (BTreeSet::new(), BTreeSet::new(), 0u64);
+    let mut failing_larger: Vec<(FeatSet, SetResult)> = vec![];
+    for (set, res) in sets.iter().zip(results.iter()) {
+        let Some(res) = res else { continue };
+        let ev = &mut rep.evidence;
+        ev.eval(1);
+        ran_keys.push(set.key());
+        let enabled = tree.enabled_derive_features(set);
+        if enabled.len() <= 2 || !set.std {
+            ev.nontrivial(&set.key());
+        }
+        let is_full = set.feats == ["full"];
+        match (is_full, set.feats.len()) {
+            (true, _) => ev.label("corner_full"),
+            (_, 1) => {
+                ev.label("single");
+                singles.insert(set.clone());
+            }
+            (_, 2) => {
+                ev.label("pair");
+                pairs.insert(set.clone());
+            }
+            _ => {
+                ev.label("larger_subset");
+                larger += 1;
+            }
+        }
+        ev.label(if set.std { "std" } else { "no_std" });
+        if !is_full {
+            for f in &set.feats {
+                ev.label(&format!("feature={f}"));
+            }
+        }
+        if res.build_ok {
+            ev.label("stage_build_ok");
+        }
+        if res.exports_ok {
+            ev.label("stage_exports_ok");
+        }
+        if res.tests_ok {
+            ev.label("stage_tests_ok");
+        }
+        ev.label_n("export_probes_asserted", res.probes_asserted as u64);
+        ev.label_n("test_programs_run", res.tests_run.len() as u64);
+        ev.label_n("test_functions_passed", res.test_fns_passed);
+        ev.sample(json!({"set": set.key(), "test_programs": res.tests_run, "test_functions_passed": res.test_fns_passed, "items_resolved": res.items_resolved, "secs": (res.secs * 10.0).round() / 10.0}));
+        for e in &res.infra {
+            rep.infra_errors.push(format!("features {}: {e}", set.key()));
+        }
+        if !res.fails.is_empty() && !is_full && set.feats.len() > 2 && failing_larger.len() < 2 {
+            failing_larger.push((set.clone(), res.clone()));
+        } else {
+            rep.violations.extend(violations_of(set, res, None));
+        }
+    }
+    // larger failing subsets are reported in minimised form
+    let sl0 = slot(ctx, 0, jobs.max(8));
+    for (set, res) in failing_larger {
+        let (m, mres) = minimise(ctx, &tree, &set, &res, &sl0);
+        rep.evidence.add("minimised_larger_subsets", 1);
+        rep.violations.extend(violations_of(&m, &mres, (m != set).then_some(&set)));
+    }
+
+    let ev = &mut rep.evidence;
+    let total_pairs = nfeat * (nfeat - 1);
+    ev.set("sets_run", json!(ran_keys));
+    ev.set("sets_planned", json!(sets.len()));
+    ev.set("single_configurations_run", json!(format!("{} of {}", singles.len(), 2 * nfeat)));
+    ev.set("pair_configurations_run", json!(format!("{} of {}", pairs.len(), total_pairs)));
+    ev.set("larger_subsets_run", json!(larger));
+    ev.set("parallel_slots", json!(nslots));
+    if ctx.tier == Tier::Thorough {
+        ev.set("budget_s", json!(budget));
+        let all_singles = singles.len() == 2 * nfeat;
+        ev.exhaustive = Some(all_singles);
+        ev.explanation = format!(
+            "exhaustive over the sub-space 'one derive feature x {{std, no std}}' ({} of {} configurations) plus `full` with and without std; pairs: {} of {} configurations in seeded order (budget {} s); {} random larger subsets. Every configuration run is listed in `sets_run`.",
+            singles.len(),
+            2 * nfeat,
+            pairs.len(),
+            total_pairs,
+            budget,
+            larger
+        );
+        if !all_singles {
+            rep.infra_errors.push("not all single-feature configurations were evaluated".into());
+        }
+    } else {
+        ev.explanation = format!(
+            "sample rotating with the seed: `full` without std, `constructor` with std, {} of {} single configurations (every derive feature once; seeds 2k and 2k+1 cover all 48), {} of {} pair configurations (a rotating window: 28 consecutive seeds cover all 276 feature pairs, each in one drawn std state), {} larger subset(s); listed in `sets_run`",
+            singles.len(),
+            2 * nfeat,
+            pairs.len(),
+            total_pairs,
+            larger
+        );
+    }
+    // disk hygiene: keep the slots (they make the next run incremental) unless they grew large
+    let total: u64 = (0..nslots).map(|k| dir_size(&slot(ctx, k, jobs).target)).sum();
+    ev.set("target_dirs_bytes", json!(total));
+    if total > TOTAL_KEEP_BYTES {
+        for k in 0..nslots {
+            let _ = std::fs::remove_dir_all(slot(ctx, k, jobs).target);
+        }
+    }
     rep
 }
 
-pub fn replay(_ctx: &Ctx, _case: &Value) -> Report {
-    Report::new("stub")
+pub fn replay(ctx: &Ctx, case: &Value) -> Report {
+    let mut rep = Report::new(RULE);
+    let Some(set) = FeatSet::from_json(case) else {
+        rep.infra_errors.push("replay case must be {\"features\": [..], \"std\": bool}".into());
+        return rep;
+    };
+    let tree = match load_tree(ctx) {
+        Ok(t) => t,
+        Err(e) => {
+            rep.infra_errors.push(e);
+            return rep;
+        }
+    };
+    let sl = slot(ctx, 0, env_usize("DMV_C20_JOBS", 8));
+    let res = eval_set(ctx, &tree, &set, &sl);
+    rep.evidence.eval(1);
+    for e in &res.infra {
+        rep.infra_errors.push(format!("features {}: {e}", set.key()));
+    }
+    rep.violations = violations_of(&set, &res, None);
+    println!(
+        "replayed features {}: build_ok={} exports_ok={} tests_ok={} ({} test programs, {} test functions passed)",
+        set.key(),
+        res.build_ok,
+        res.exports_ok,
+        res.tests_ok,
+        res.tests_run.len(),
+        res.test_fns_passed
+    );
+    rep
 }
